@@ -943,6 +943,7 @@ struct JwkInput {
   kty_label: &'static str,
 }
 
+const KID_62_63: &str = "k~~~???>>>-\u{43a}\u{43b}\u{44e}\u{447}";
 fn q(s: &str) -> String {
   format!("\"{s}\"")
 }
@@ -959,7 +960,7 @@ fn jwk_input(wide: bool, ch: &mut Chooser) -> (JwkInput, usize) {
   let use_ = ch.choose("use", 3);
   let key_ops = ch.choose("key_ops", 4);
   let alg = ch.choose("alg", 2);
-  let kid = ch.choose("kid", nv(3));
+  let kid = ch.choose("kid", nv(3) + 1);
   let x5u = ch.choose("x5u", 2);
   let x5c = ch.choose("x5c", 2);
   let x5t = ch.choose("x5t", 2);
@@ -1022,7 +1023,9 @@ fn jwk_input(wide: bool, ch: &mut Chooser) -> (JwkInput, usize) {
     m.push(("alg", q(["EdDSA", "ECDH-ES", "ES256", "ES256K", "ES384", "RS256", "HS256"][kty])));
   }
   if kid > 0 {
-    m.push(("kid", q(["key-1", "did:example:123#0"][kid - 1])));
+    // KID_62_63: three `~`, `?`, `>` in a row put one of each at every offset mod 3 of the JSON text, so the base64url
+    // form of the identifier contains both characters in which base64url differs from base64 (`-`, `_`); plus non-ASCII
+    m.push(("kid", q(["key-1", KID_62_63, "did:example:123#0"][kid - 1])));
   }
   if extra == 2 {
     m.push(("x5u", q("https://EXAMPLE.com"))); // not in the URL crate's normal form
@@ -1587,6 +1590,10 @@ fn generate(ctx: &Ctx) {
   ctx.require(fully > 0, "no list exploration was offered every interleaving of its handlers' gates: the completion-order quantifier is vacuous");
 
   // (c)
+  {
+    let id = b64url(format!("{{\"kid\":\"{KID_62_63}\"}}").as_bytes());
+    ctx.require(id.contains('-') && id.contains('_'), "did:jwk: the identifier alphabet never reaches the two characters in which base64url differs from base64");
+  }
   let wide = ctx.thorough();
   choice::explore_into(ctx, "did:jwk", None, |ch| jwk_body(ctx, wide, ch));
   for kty in [0u32, 2, 5] {
@@ -1600,7 +1607,7 @@ fn generate(ctx: &Ctx) {
   ctx.add_transitions((raws.len() * ROUTES.len()) as u64);
   ctx.add_traces((raws.len() * ROUTES.len()) as u64);
   ctx.part("did:jwk identifiers that encode no JWK", json!({"cases": raws.len(), "routes": ROUTES.len()}));
-  ctx.bound("jwk_optional_member_values", if wide { "use 0..2, key_ops 0..3, kid 0..2, others 0..1 (all subsets)" } else { "use 0..2, key_ops 0..3, every other member absent/present (all subsets)" });
+  ctx.bound("jwk_optional_member_values", if wide { "use 0..2, key_ops 0..3, kid 0..3 (incl. a kid that puts `-` and `_` into the identifier), others 0..1 (all subsets)" } else { "use 0..2, key_ops 0..3, kid 0..2 (incl. a kid that puts `-` and `_` into the identifier), every other member absent/present (all subsets)" });
 }
 
 fn main() {
